@@ -11,6 +11,56 @@ ORDERED_TARGET = re.compile(r"std::vec::Vec<|std::string::String|std::collection
 UNORDERED_TARGET = re.compile(r"std::collections::(HashMap|HashSet|BTreeMap|BTreeSet)<|serde_json::Map<")
 
 
+CURRENT_F = None     # set by the property modules: the fact base, for looking into comparator closures
+
+
+def comparator_defect(t):
+    """`sort_by(|a, b| (&a.x, a.y).cmp(&(&b.x, b.y)))`: a defect of the comparator that leaves distinct elements unordered - a
+    component of the right-hand key taken from the *left* element (or vice versa), or different fields on the two sides.
+    None when the comparator is fine or not of a recognised shape."""
+    F = CURRENT_F
+    if F is None or not (t.get("callee") or "").endswith(("::sort_by", "::sort_unstable_by")):
+        return None
+    cl = [F.fns[c] for c in t.get("fnrefs") or () if c in F.fns]
+    if len(cl) != 1:
+        return None
+    C = cl[0]
+    du = mir.DefUse(C)
+
+    def comps(op):
+        """[(side, fields)] of the components of a compared key"""
+        out = []
+        for o in mir.provenance(C, du, op):
+            if o.kind == "agg" and "tuple" in o.rv:
+                for x in o.rv["ops"]:
+                    out.append(side_of(x))
+                return out
+        return [side_of(op)]
+
+    def side_of(op):
+        sides, fields = set(), ()
+        for o in mir.provenance(C, du, op):
+            if o.kind == "arg" and o.local in (2, 3):
+                sides.add("a" if o.local == 2 else "b")
+                fields = tuple(x for x in o.proj if x.startswith(".") and not x[1:].isdigit())
+        return (sides, fields)
+    for bi, t2 in mir.calls(C):
+        c2 = (t2.get("callee") or "").split("::")[-1]
+        if c2 not in ("cmp", "partial_cmp") or len(t2["args"]) != 2:
+            continue
+        left, right = comps(t2["args"][0]), comps(t2["args"][1])
+        if len(left) != len(right):
+            return "the two keys have different shapes"
+        for (ls, lf), (rs, rf) in zip(left, right):
+            if not ls or not rs:
+                continue
+            if ls == rs:
+                return "component `%s` is taken from the same element on both sides" % ("".join(lf) or "self")
+            if lf != rf:
+                return "`%s` of one element is compared with `%s` of the other" % ("".join(lf), "".join(rf))
+    return None
+
+
 def is_hash_iter(t):
     c = t.get("callee") or ""
     r = t.get("resolved") or ""
@@ -84,6 +134,9 @@ def classify(fn, bb):
                         if re.search(r"::(sort|sort_by|sort_by_key|sort_unstable|sort_unstable_by|sort_unstable_by_key)$", c2) and cfg.dominates(bi, bj):
                             for o in mir.provenance(fn, du, t2["args"][0], transparent_extra=("std::ops::DerefMut::deref_mut",)):
                                 if o.kind in ("local", "call") and (o.local in roots or (o.kind == "call" and o.bb == bi)):
+                                    bad = comparator_defect(t2)
+                                    if bad:
+                                        return "ordered", "collected into a Vec and sorted with a comparator that does not order all elements (%s): elements it treats as equal keep the hash order" % bad
                                     return "neutral", "collected into a Vec that is sorted right after"
                     return "ordered", "collected into %s" % (target[:60] or "a sequence")
                 if name in ("all", "any", "count", "sum", "min", "max", "min_by_key", "max_by_key", "fold_neutral"):
